@@ -371,3 +371,515 @@ Proof.
   - intros v Hv. destruct (G n) as [[H _]|[[v' [H1 H2]] _]]; [congruence|].
     rewrite H1 in Hv. inversion Hv; subst. exact (H2 Hok).
 Qed.
+
+(* the hypotheses for all the declared variables of a problem *)
+Definition inst_okn (d : dcop) : Prop := forall n, In n (map fst (d_vars d)) -> okn d n.
+
+Theorem mgm_selects_in_domain : forall d stop orc sched, inst_okn d ->
+  (forall n v c k, In n (map fst (d_vars d)) ->
+     In (EvValue n v c k) (snd (run (mgm_proto d stop orc) sched)) -> In v (dom_of d n)) /\
+  (forall n v, In n (map fst (d_vars d)) ->
+     m_value (w_st (nodes (fst (run (mgm_proto d stop orc) sched)) n)) = Some v -> In v (dom_of d n)).
+Proof.
+  intros d stop orc sched Hd. split.
+  - intros n v c k Hn. apply (mgm_selects_in_domain_node d stop orc sched n (Hd n Hn)).
+  - intros n v Hn. apply (mgm_selects_in_domain_node d stop orc sched n (Hd n Hn)).
+Qed.
+
+(* non-vacuity: a two-variable instance satisfying the hypotheses *)
+Definition inst_ex : dcop :=
+  mkD [(0, mkV [1; 2] (Some 2) []); (1, mkV [5; 7] None [])]
+      [mkC [0; 1] [([1; 5], 3); ([2; 7], 1)]] false.
+Example inst_ok : inst_okn inst_ex.
+Proof.
+  intros n [<-|[<-|[]]]; (split; [discriminate|]); cbn; intros v H; inversion H; subst; auto.
+Qed.
+
+(* the restriction to well-formed nodes is needed: a schedule may start an undeclared id, whose
+   variable is the empty one; being isolated it "selects" the default 0 of optimal_cost_value *)
+Example mgm_undeclared_refuted :
+  exists d stop orc sched n v c k, inst_okn d /\
+    In (EvValue n v c k) (snd (run (mgm_proto d stop orc) sched)) /\ ~ In v (dom_of d n).
+Proof.
+  exists inst_ex, 0, (fun _ => []), [Start 9], 9, 0, (Some 0), 0.
+  split; [exact inst_ok|]. split; [vm_compute; auto|vm_compute; tauto].
+Qed.
+
+(* ================================================================== MGM2 *)
+(* Message invariant: the offers (vs, vr, gain) carried by an OFFER message from src to dst pair
+   a value of src's domain with a value of dst's domain; an accepting ANSWER carries a value of
+   the domain of its destination (the offerer).  Both hold without any hypothesis: offers are
+   enumerated from the two domains, and the accepted pair is taken from a received offer. *)
+Definition Mok2 (d : dcop) (src dst : node) (m : m2msg) : Prop :=
+  match m with
+  | M2Offer _ os => forall a b g, In (a, b, g) os -> In a (dom_of d src) /\ In b (dom_of d dst)
+  | M2Answer acc v _ => acc = true -> exists x, v = Some x /\ In x (dom_of d dst)
+  | _ => True
+  end.
+
+Definition rok2 (P : m2st -> Prop) (O : node * m2msg -> Prop) (E : mev -> Prop) (r : res2) : Prop :=
+  P (fst (fst r)) /\ Forall O (snd (fst r)) /\ Forall E (snd r).
+
+Lemma rok2_ret (P : m2st -> Prop) O E s : P s -> rok2 P O E (ret2 s).
+Proof. intros H. split; [exact H|split; constructor]. Qed.
+
+Lemma rok2_andthen (P P' : m2st -> Prop) O E r f :
+  rok2 P O E r -> (forall s, P s -> rok2 P' O E (f s)) -> rok2 P' O E (andthen2 r f).
+Proof.
+  destruct r as [[s o] e]. intros (H1 & H2 & H3) Hf. cbn [fst snd] in *.
+  specialize (Hf s H1). unfold andthen2. destruct (f s) as [[s' o'] e'].
+  destruct Hf as (F1 & F2 & F3). cbn [fst snd] in *.
+  split; [exact F1|split; apply Forall_app; auto].
+Qed.
+
+Lemma rok2_weaken (P P' : m2st -> Prop) O E r :
+  (forall s, P s -> P' s) -> rok2 P O E r -> rok2 P' O E r.
+Proof. intros H (H1 & H2 & H3). split; auto. Qed.
+
+Lemma sel_In_insert_sorted {A} (leb : A -> A -> bool) x y l :
+  In y (insert_sorted leb x l) <-> y = x \/ In y l.
+Proof.
+  induction l as [|z l IH]; simpl; [intuition|].
+  destruct (leb x z); simpl; [intuition|]. rewrite IH. intuition.
+Qed.
+Lemma sel_In_isort {A} (leb : A -> A -> bool) y l : In y (isort leb l) <-> In y l.
+Proof.
+  induction l as [|x l IH]; simpl; [tauto|].
+  unfold isort in *. simpl. rewrite sel_In_insert_sorted, IH. intuition.
+Qed.
+
+Lemma pop_last_spec {A} (l : list A) rest x : pop_last l = Some (rest, x) -> l = rest ++ [x].
+Proof.
+  revert rest x. induction l as [|y l IH]; simpl; intros rest x H; [discriminate|].
+  destruct (pop_last l) as [[r' z]|] eqn:Ep.
+  - inversion H; subst. rewrite (IH _ _ eq_refl). reflexivity.
+  - inversion H; subst. destruct l as [|w l]; [reflexivity|].
+    simpl in Ep. destruct (pop_last l) as [[? ?]|]; discriminate.
+Qed.
+
+Section Mgm2Node.
+  Variable d : dcop.
+  Variable stop thr favor : Z.
+  Variable n : node.
+  Let D := dom_of d n.
+  Let nb := nbrs d n.
+  Let E := mE d n.
+  Let O := fun dm : node * m2msg => Mok2 d n (fst dm) (snd dm).
+  Let F := fun sm : Z * m2msg => Mok2 d (fst sm) n (snd sm).
+  Let InD := InD d n.
+
+  (* components of the invariant *)
+  Definition tA (s : m2st) : Prop := exists v, t_value s = Some v /\ InD v.
+  Definition tL (s : m2st) : Prop :=
+    match t_pval s with Some v => InD v | None => t_pgain s = 0 /\ t_canmove s = false end.
+  Definition tK (s : m2st) : Prop :=
+    t_offerer s = false -> t_partner s = None \/ zlen nb <= zlen (t_offers s).
+  Definition tO (s : m2st) : Prop := Forall F (t_offers s).
+  Definition tS (s : m2st) : Prop :=
+    Forall F (t_pvalue s) /\ Forall F (t_poffer s) /\ Forall F (t_panswer s)
+    /\ Forall F (t_pgainm s) /\ Forall F (t_pgo s).
+  Definition tR (s : m2st) : Prop := tL s /\ tK s /\ tO s /\ tS s.
+  Definition tP (s : m2st) : Prop := tA s /\ tR s.
+
+  Lemma tS_get s k : tS s -> Forall F (get_post s k).
+  Proof.
+    intros (H1 & H2 & H3 & H4 & H5). unfold get_post.
+    destruct (k =? 1); auto. destruct (k =? 2); auto. destruct (k =? 3); auto. destruct (k =? 4); auto.
+  Qed.
+
+  Lemma tP_set_post s k l : tP s -> Forall F l -> tP (set_post s k l).
+  Proof.
+    intros (HA & HL & HK & HO & (H1 & H2 & H3 & H4 & H5)) Hl. unfold set_post.
+    destruct (k =? 1); [|destruct (k =? 2); [|destruct (k =? 3); [|destruct (k =? 4)]]];
+      (split; [exact HA|split; [exact HL|split; [exact HK|split; [exact HO|]]]]);
+      unfold tS; cbn; auto.
+  Qed.
+
+  Lemma tR_set_post s k l : tR s -> Forall F l -> tR (set_post s k l).
+  Proof.
+    intros (HL & HK & HO & (H1 & H2 & H3 & H4 & H5)) Hl. unfold set_post.
+    destruct (k =? 1); [|destruct (k =? 2); [|destruct (k =? 3); [|destruct (k =? 4)]]];
+      (split; [exact HL|split; [exact HK|split; [exact HO|]]]);
+      unfold tS; cbn; auto.
+  Qed.
+
+  Lemma set_post_value s k l : t_value (set_post s k l) = t_value s /\ t_state (set_post s k l) = t_state s.
+  Proof.
+    unfold set_post.
+    destruct (k =? 1); [|destruct (k =? 2); [|destruct (k =? 3); [|destruct (k =? 4)]]]; split; reflexivity.
+  Qed.
+
+  Lemma E2_value v c k : InD v -> E (EvValue n v c k).
+  Proof. intros H. split; [reflexivity|exact H]. Qed.
+
+  (* value_selection2 touches current_value and current_cost only *)
+  Lemma value_selection2_ok s v c : tR s -> InD v -> rok2 tP O E (value_selection2 n s v c).
+  Proof.
+    intros HR Hv. unfold value_selection2. split; [|split]; cbn [fst snd].
+    - split; [exists v; split; [reflexivity|exact Hv]|exact HR].
+    - constructor.
+    - destruct (option_eqb Z.eqb (t_value s) (Some v)); [constructor|].
+      constructor; [apply E2_value; exact Hv|constructor].
+  Qed.
+
+  Lemma send_value2_ok s : tP s -> rok2 tP O E (send_value2 d stop n s).
+  Proof.
+    intros H. unfold send_value2. cbv zeta.
+    destruct (negb (stop =? 0) && (stop <=? t_cycle s + 1)); (split; [exact H|split]); cbn [fst snd].
+    - constructor.
+    - repeat constructor.
+    - apply Forall_forall. intros [t m] Hin. apply in_map_iff in Hin. destruct Hin as (t' & Heq & _).
+      inversion Heq; subst. exact I.
+    - repeat constructor.
+  Qed.
+
+  Lemma send_gain2_ok s : tP s -> rok2 tP O E (send_gain2 d n s).
+  Proof.
+    intros H. unfold send_gain2. split; [exact H|split]; cbn [fst snd]; [|constructor].
+    apply Forall_forall. intros [t m] Hin. apply in_map_iff in Hin. destruct Hin as (t' & Heq & _).
+    inversion Heq; subst. exact I.
+  Qed.
+
+  Lemma cbv2_spec nv vals c : compute_best_value2 d n nv = (vals, c) -> okn d n ->
+    vals <> [] /\ (forall x, In x vals -> In x D).
+  Proof.
+    unfold compute_best_value2. intros H Hok. eapply sel_find_arg_optimal; eauto. apply Hok.
+  Qed.
+
+  Lemma compute_offers_ok s p a b g : In (a, b, g) (compute_offers d n s p) ->
+    In a (dom_of d n) /\ In b (dom_of d p).
+  Proof.
+    unfold compute_offers. intros H. apply in_flat_map in H. destruct H as (dp & Hdp & H).
+    apply in_flat_map in H. destruct H as (ds & Hds & H).
+    destruct (better _ _ _); [|destruct H]. destruct H as [H|[]]. inversion H; subst. auto.
+  Qed.
+
+  (* the best offers come from the received offers *)
+  Lemma find_best_offer_spec (G : Z * Z * Z -> Prop) s all :
+    (forall p os vp vme pg, In (p, os) all -> In (vp, vme, pg) os -> G (vp, vme, p)) ->
+    forall t, In t (fst (find_best_offer d n s all)) -> G t.
+  Proof.
+    unfold find_best_offer. cbv zeta.
+    assert (Gen : forall all acc,
+      (forall p os vp vme pg, In (p, os) all -> In (vp, vme, pg) os -> G (vp, vme, p)) ->
+      (forall t, In t (fst acc) -> G t) ->
+      forall t, In t (fst (fold_left (fun acc po =>
+        fold_left (fun acc2 o =>
+          let '(vp, vme, pg) := o in
+          let '(bests, best) := acc2 in
+          let gg := cost2 s - cost_at (filter (fun c => negb (zmem (fst po) (c_scope c))) (cons_of d n))
+                                      (view2 n (t_nv s) vme (fst po) vp) + pg in
+          if (if d_max d then gg <? best else best <? gg) then ([(vp, vme, fst po)], gg)
+          else if gg =? best then (bests ++ [(vp, vme, fst po)], best)
+          else acc2) (snd po) acc) all acc)) -> G t).
+    { clear all. induction all as [|[p os] all IH]; intros acc Hall Hacc; simpl; [exact Hacc|].
+      apply IH; [intros; eapply Hall; [right|]; eauto|].
+      assert (Hos : forall vp vme pg, In (vp, vme, pg) os -> G (vp, vme, p))
+        by (intros; eapply Hall; [left; reflexivity|eauto]).
+      clear Hall IH. revert acc Hacc. induction os as [|[[vp vme] pg] os IH2]; intros acc Hacc; simpl; [exact Hacc|].
+      apply IH2; [intros vp' vme' pg' Hi; apply (Hos vp' vme' pg'); right; exact Hi|].
+      destruct acc as [bests best]. cbn [fst] in Hacc.
+      match goal with |- context [if ?c then _ else _] => destruct c end.
+      - intros t [<-|[]]. apply (Hos vp vme pg). left; reflexivity.
+      - match goal with |- context [if ?c then _ else _] => destruct c end; [|exact Hacc].
+        cbn [fst]. intros t Ht. apply in_app_or in Ht. destruct Ht as [Ht|[<-|[]]]; auto.
+        apply (Hos vp vme pg). left; reflexivity. }
+    intros Hall. apply Gen; [exact Hall|]. intros t [].
+  Qed.
+
+  Lemma offering_In l p os : In (p, os) (offering l) -> In (p, M2Offer true os) l.
+  Proof.
+    unfold offering. intros H. apply in_flat_map in H. destruct H as ([src m] & Hin & H).
+    cbn [fst snd] in H. destruct m as [| |o os'| |]; try destruct H. destruct o; [|destruct H].
+    destruct H as [H|[]]. inversion H; subst. exact Hin.
+  Qed.
+
+  Lemma opt_is_true o x : opt_is o x = true -> o = Some x.
+  Proof. destruct o as [y|]; simpl; [|discriminate]. intros H. apply Z.eqb_eq in H. now subst. Qed.
+
+  Section Handlers2.
+    Variable enter : Z -> m2st -> res2.
+    Hypothesis Henter : forall k s, tP s -> rok2 tP O E (enter k s).
+
+    Lemma clear_agent_P s : tA s -> tS s -> tP (clear_agent s).
+    Proof.
+      intros HA HS. split; [exact HA|]. split; [|split; [|split]].
+      - unfold tL. cbn. auto.
+      - intros _. left. reflexivity.
+      - unfold tO. cbn. constructor.
+      - exact HS.
+    Qed.
+
+    Lemma finish_cycle_ok s : tA s -> tS s -> rok2 tP O E (finish_cycle d stop n enter s).
+    Proof.
+      intros HA HS. unfold finish_cycle. eapply rok2_andthen; [|apply Henter].
+      apply send_value2_ok. apply clear_agent_P; auto.
+    Qed.
+
+    Lemma finish_cycle_P s : tP s -> rok2 tP O E (finish_cycle d stop n enter s).
+    Proof. intros (HA & _ & _ & _ & HS). apply finish_cycle_ok; auto. Qed.
+
+    Lemma hvm_ok s : tP s -> rok2 tP O E (handle_value_messages d thr n enter s).
+    Proof.
+      intros (HA & HL & HK & HO & HS). unfold handle_value_messages. cbv zeta.
+      destruct (draw (t_orc (set_t_cost s (Some (local_at d n (view1 n (t_nv s) (cur2 s))))))) as [k o1].
+      assert (Hcur : InD (cur2 s)).
+      { destruct HA as [v [Hv Hd]]. unfold cur2. rewrite Hv. exact Hd. }
+      destruct (k <? thr).
+      - destruct (draw o1) as [x o].
+        match goal with |- context [compute_best_value2 d n ?nv] =>
+          destruct (compute_best_value2 d n nv) as [vals best] eqn:Ec end.
+        pose proof (cbv2_spec _ _ _ Ec) as Hc.
+        match goal with |- context [if ?b then (let '(x, o) := draw ?oo in _) else _] =>
+          destruct b; [destruct (draw oo) as [x' o']|] end;
+        (eapply rok2_andthen; [|apply Henter]).
+        + split; [|split]; cbn [fst snd]; [|shelve|constructor].
+          split; [exact HA|split; [|split; [|split; [exact HO|exact HS]]]].
+          * unfold tL. cbn. intros Hok. destruct (Hc Hok) as [Hne Hin]. apply Hin. apply sel_choose_In. exact Hne.
+          * intros Hf. cbn in Hf. discriminate.
+        + split; [|split]; cbn [fst snd]; [|shelve|constructor].
+          split; [exact HA|split; [|split; [|split; [exact HO|exact HS]]]].
+          * unfold tL. cbn. exact Hcur.
+          * intros Hf. cbn in Hf. discriminate.
+      - match goal with |- context [compute_best_value2 d n ?nv] =>
+          destruct (compute_best_value2 d n nv) as [vals best] eqn:Ec end.
+        pose proof (cbv2_spec _ _ _ Ec) as Hc.
+        match goal with |- context [if ?b then (let '(x, o) := draw ?oo in _) else _] =>
+          destruct b; [destruct (draw oo) as [x' o']|] end;
+        (eapply rok2_andthen; [|apply Henter]).
+        + split; [|split]; cbn [fst snd]; [|shelve|constructor].
+          split; [exact HA|split; [|split; [|split; [exact HO|exact HS]]]].
+          * unfold tL. cbn. intros Hok. destruct (Hc Hok) as [Hne Hin]. apply Hin. apply sel_choose_In. exact Hne.
+          * intros _. left. reflexivity.
+        + split; [|split]; cbn [fst snd]; [|shelve|constructor].
+          split; [exact HA|split; [|split; [|split; [exact HO|exact HS]]]].
+          * unfold tL. cbn. exact Hcur.
+          * intros _. left. reflexivity.
+      Unshelve.
+      all: apply Forall_forall; intros [t m] Hin; apply in_map_iff in Hin; destruct Hin as (t' & Heq & _);
+        match type of Heq with (if ?c then _ else _) = _ => destruct c end; inversion Heq; subst;
+        unfold O; cbn [fst snd Mok2]; intros a b g Hi; [eapply compute_offers_ok; exact Hi|destruct Hi].
+    Qed.
+
+    Lemma pval_InD s : tL s -> (t_pgain s <> 0 \/ t_canmove s = true) ->
+      InD (match t_pval s with Some v => v | None => 0 end).
+    Proof.
+      unfold tL. destruct (t_pval s) as [v|]; [auto|]. intros [H1 H2] [H|H]; [tauto|congruence].
+    Qed.
+
+    Lemma hgm_ok s : tP s -> rok2 tP O E (handle_gain_messages d stop n enter s).
+    Proof.
+      intros HP. pose proof HP as (HA & HL & HK & HO & HS). unfold handle_gain_messages. cbv zeta.
+      destruct (t_pgain s =? 0) eqn:Eg; [apply finish_cycle_P; exact HP|]. apply Z.eqb_neq in Eg.
+      destruct (t_committed s).
+      - destruct (t_partner s) as [p|] eqn:Ep.
+        + eapply rok2_andthen; [|apply Henter]. split; [|split]; cbn [fst snd]; [|repeat constructor|constructor].
+          split; [exact HA|split; [|split; [exact HK|split; [exact HO|exact HS]]]].
+          revert HL. unfold tL. cbn. destruct (t_pval s); [auto|]. intros [H _]. tauto.
+        + split; [exact HP|split; repeat constructor].
+      - eapply rok2_andthen; [|apply finish_cycle_P].
+        match goal with |- context [if ?c then value_selection2 _ _ _ _ else _] => destruct c end.
+        + apply value_selection2_ok; [split; [exact HL|split; [exact HK|split; [exact HO|exact HS]]]|].
+          apply pval_InD; auto.
+        + apply rok2_ret. exact HP.
+    Qed.
+
+    Lemma hgo_ok s go : tP s -> rok2 tP O E (handle_go d stop n enter s go).
+    Proof.
+      intros HP. pose proof HP as (HA & HR). pose proof HR as (HL & _). unfold handle_go. cbv zeta.
+      eapply rok2_andthen; [|apply finish_cycle_P].
+      destruct (go && t_canmove s) eqn:Eg.
+      - apply andb_true_iff in Eg. destruct Eg as [_ Eg].
+        apply value_selection2_ok; [exact HR|]. apply pval_InD; auto.
+      - apply rok2_ret. exact HP.
+    Qed.
+
+    Lemma hresp_ok s src acc v g : tP s -> Mok2 d src n (M2Answer acc v g) ->
+      rok2 tP O E (handle_response d n enter s src acc v g).
+    Proof.
+      intros HP Hm. pose proof HP as (HA & HL & HK & HO & HS). unfold handle_response.
+      destruct (negb (opt_is (t_partner s) src) || negb (t_offerer s)).
+      - split; [exact HP|split; repeat constructor].
+      - eapply rok2_andthen; [|apply Henter]. apply send_gain2_ok.
+        destruct acc.
+        + cbn in Hm. destruct (Hm eq_refl) as (x & -> & Hx).
+          split; [exact HA|split; [|split; [exact HK|split; [exact HO|exact HS]]]].
+          unfold tL. cbn. intros _. exact Hx.
+        + split; [exact HA|split; [|split; [exact HK|split; [exact HO|exact HS]]]]. exact HL.
+    Qed.
+
+    (* the offers stored by this node pair a value of the offerer with a value of this node *)
+    Lemma offers_good s : tO s ->
+      forall p os vp vme pg, In (p, os) (offering (t_offers s)) -> In (vp, vme, pg) os ->
+        In vp (dom_of d p) /\ In vme (dom_of d n).
+    Proof.
+      intros HO p os vp vme pg Hin Hi. apply offering_In in Hin.
+      unfold tO in HO. rewrite Forall_forall in HO. specialize (HO _ Hin). cbn in HO. eapply HO; eauto.
+    Qed.
+
+    Lemma hom_ok s : tP s -> (t_offerer s = false -> t_partner s = None) ->
+      zlen nb <= zlen (t_offers s) -> rok2 tP O E (handle_offer_messages d favor n enter s).
+    Proof.
+      intros HP Hpart Hlen. pose proof HP as (HA & HL & HK & HO & HS). unfold handle_offer_messages. cbv zeta.
+      destruct (t_offerer s) eqn:Eo.
+      - eapply rok2_andthen; [|apply Henter]. split; [exact HP|split]; cbn [fst snd]; [|constructor].
+        apply Forall_forall. intros [t m] Hin. apply in_map_iff in Hin. destruct Hin as (t' & Heq & _).
+        inversion Heq; subst. unfold O. cbn. discriminate.
+      - specialize (Hpart eq_refl).
+        destruct (find_best_offer d n s (offering (t_offers s))) as [bests gain] eqn:Ef.
+        pose proof (find_best_offer_spec (fun t => let '(vp, vme, p) := t in In vp (dom_of d p) /\ In vme (dom_of d n))
+                      s (offering (t_offers s)) (offers_good s HO)) as Hb. rewrite Ef in Hb. cbn [fst] in Hb.
+        match goal with |- context [let '(committed, o1) := ?c in _] => destruct c as [committed o1] eqn:Ecom end.
+        destruct committed.
+        + (* committed: the pair is one of the best offers *)
+          assert (Hne : bests <> []).
+          { intros ->. rewrite orb_true_r in Ecom. discriminate. }
+          match goal with |- context [draw ?oo] => destruct (draw oo) as [x o] end.
+          set (sorted := isort t3_leb bests).
+          assert (Hs : In (nth (Z.to_nat (x mod zlen sorted)) sorted (0, 0, 0)) sorted).
+          { assert (sorted <> []).
+            { destruct bests as [|b0 br]; [tauto|]. intros Hnil.
+              assert (In b0 sorted) by (apply sel_In_isort; left; reflexivity). rewrite Hnil in H. destruct H. }
+            apply nth_In. unfold zlen.
+            assert (0 < Z.of_nat (List.length sorted)) by (destruct sorted; [tauto|simpl; lia]).
+            pose proof (Z.mod_pos_bound x (Z.of_nat (List.length sorted)) H0). lia. }
+          apply sel_In_isort in Hs. apply Hb in Hs.
+          destruct (nth (Z.to_nat (x mod zlen sorted)) sorted (0, 0, 0)) as [[vp vme] p].
+          destruct Hs as [Hvp Hvme].
+          eapply rok2_andthen; [|apply Henter]. eapply rok2_andthen; [|apply send_gain2_ok].
+          split; [|split]; cbn [fst snd]; [| |constructor].
+          * split; [exact HA|split; [|split; [|split; [exact HO|exact HS]]]].
+            -- unfold tL. cbn. intros _. exact Hvme.
+            -- intros _. right. exact Hlen.
+          * apply Forall_forall. intros [t m] Hin. apply in_map_iff in Hin. destruct Hin as (so & Heq & _).
+            cbn in Heq. destruct (fst so =? p) eqn:Ep; inversion Heq; subst; unfold O; cbn; [|discriminate].
+            intros _. apply Z.eqb_eq in Ep. rewrite Ep. exists vp. auto.
+        + eapply rok2_andthen; [|apply Henter]. eapply rok2_andthen; [|apply send_gain2_ok].
+          split; [|split]; cbn [fst snd]; [| |constructor].
+          * split; [exact HA|split; [exact HL|split; [|split; [exact HO|exact HS]]]].
+            intros _. left. exact Hpart.
+          * apply Forall_forall. intros [t m] Hin. apply in_map_iff in Hin. destruct Hin as (so & Heq & _).
+            cbn in Heq. rewrite Hpart in Heq. cbn in Heq. inversion Heq; subst. unfold O. cbn. discriminate.
+    Qed.
+
+    Lemma on_msg_P s src m : tP s -> Mok2 d src n m ->
+      rok2 tP O E (on_msg d stop thr favor n enter s src m).
+    Proof.
+      intros HP Hm. pose proof HP as (HA & HL & HK & HO & HS). unfold on_msg. cbv zeta.
+      destruct (negb (t_state s =? kind_of m)).
+      { apply rok2_ret. apply tP_set_post; [exact HP|]. apply Forall_app. split; [apply tS_get; exact HS|].
+        constructor; [exact Hm|constructor]. }
+      destruct m as [v|g|ofg os|acc v g|go].
+      - match goal with |- context [if ?c then _ else _] => destruct c end.
+        + apply hvm_ok. exact HP.
+        + apply rok2_ret. exact HP.
+      - match goal with |- context [if ?c then _ else _] => destruct c end.
+        + apply hgm_ok. exact HP.
+        + apply rok2_ret. exact HP.
+      - match goal with |- context [handle_offer_messages d favor n enter ?x] => set (s1 := x) end.
+        assert (Hl1 : zlen (t_offers s1) = zlen (t_offers s) + 1).
+        { unfold s1, zlen. cbn. rewrite app_length. simpl. lia. }
+        assert (HP1 : tP s1).
+        { split; [exact HA|split; [exact HL|split; [|split; [|exact HS]]]].
+          - intros Hf. destruct (HK Hf) as [H|H]; [left; exact H|right]. rewrite Hl1. lia.
+          - unfold tO, s1. cbn. apply Forall_app. split; [exact HO|]. constructor; [exact Hm|constructor]. }
+        destruct (zlen (t_offers s1) =? zlen (nbrs d n)) eqn:El.
+        + apply Z.eqb_eq in El. apply hom_ok; [exact HP1| |unfold nb; lia].
+          intros Hf. destruct (HK Hf) as [H|H]; [exact H|]. unfold nb in H. lia.
+        + apply rok2_ret. exact HP1.
+      - apply hresp_ok; assumption.
+      - apply hgo_ok; assumption.
+    Qed.
+  End Handlers2.
+
+  (* _enter_state and its replay loop, for any fuel *)
+  Lemma loop_eq fuel st s : loop d stop thr favor n fuel st s =
+    match pop_last (get_post s st) with
+    | None => ret2 s
+    | Some (rest, (src, m)) =>
+        match fuel with
+        | O => (s, [], [EvErr n 7])
+        | S f => andthen2 (on_msg d stop thr favor n (enter d stop thr favor n f) (set_post s st rest) src m)
+                          (loop d stop thr favor n f st)
+        end
+    end.
+  Proof. destruct fuel; reflexivity. Qed.
+  Lemma enter_S f st s : enter d stop thr favor n (S f) st s = loop d stop thr favor n f st (set_t_state s st).
+  Proof. reflexivity. Qed.
+
+  Lemma enter_loop_ok fuel :
+    (forall st s, tP s -> rok2 tP O E (enter d stop thr favor n fuel st s)) /\
+    (forall st s, tP s -> rok2 tP O E (loop d stop thr favor n fuel st s)).
+  Proof.
+    induction fuel as [|f [IHe IHl]].
+    - split; intros st s HP.
+      + split; [exact HP|split; repeat constructor].
+      + rewrite loop_eq.
+        destruct (pop_last (get_post s st)) as [[rest [src m]]|]; [|apply rok2_ret; exact HP].
+        split; [exact HP|split; repeat constructor].
+    - assert (Hl : forall st s, tP s -> rok2 tP O E (loop d stop thr favor n (S f) st s)).
+      { intros st s HP. rewrite loop_eq.
+        destruct (pop_last (get_post s st)) as [[rest [src m]]|] eqn:Ep; [|apply rok2_ret; exact HP].
+        apply pop_last_spec in Ep.
+        assert (Hg : Forall F (rest ++ [(src, m)])) by (rewrite <- Ep; apply tS_get; apply HP).
+        apply Forall_app in Hg. destruct Hg as [Hrest Hm]. inversion Hm; subst.
+        eapply rok2_andthen; [|apply IHl].
+        apply on_msg_P; [exact IHe|apply tP_set_post; assumption|assumption]. }
+      split; [|exact Hl].
+      intros st s HP. rewrite enter_S. apply IHl. exact HP.
+  Qed.
+
+  Lemma enter_ok fuel st s : tP s -> rok2 tP O E (enter d stop thr favor n fuel st s).
+  Proof. apply enter_loop_ok. Qed.
+
+  (* the node invariant: not started (state 0, no value) or started with a domain value *)
+  Definition tJ (s : m2st) : Prop := ((t_state s = 0 /\ t_value s = None) \/ tA s) /\ tR s.
+
+  Lemma tP_J s : tP s -> tJ s.
+  Proof. intros [HA HR]. split; [right; exact HA|exact HR]. Qed.
+
+  Lemma mgm2_start_ok s : tJ s -> rok2 tJ O E (mgm2_start d stop thr favor n s).
+  Proof.
+    intros [_ HR]. apply rok2_weaken with (P := tP); [exact tP_J|].
+    unfold mgm2_start. cbv zeta. destruct (nbrs d n) as [|t nb'].
+    - destruct (compute_best_value2 d n []) as [vals cost] eqn:Ec.
+      pose proof (cbv2_spec _ _ _ Ec) as Hc.
+      destruct (draw (t_orc s)) as [x o].
+      eapply rok2_andthen with (P := tP).
+      + apply value_selection2_ok; [exact HR|].
+        intros Hok. destruct (Hc Hok) as [Hne Hin]. apply Hin. apply sel_choose_In. exact Hne.
+      + intros s1 H1. split; [exact H1|split; repeat constructor].
+    - assert (Hv0 : forall v0 o, (match v_init (var_of d n) with
+                           | Some v => (v, t_orc s)
+                           | None => let '(x, o) := draw (t_orc s) in (choose (dom_of d n) x 0, o)
+                           end) = (v0, o) -> InD v0).
+      { intros v0 o H0 Hok. revert H0. destruct (v_init (var_of d n)) as [v|] eqn:Ei.
+        - intros H; inversion H; subst. apply (proj2 Hok). exact Ei.
+        - destruct (draw (t_orc s)) as [x o']. intros H; inversion H; subst.
+          apply sel_choose_In. apply Hok. }
+      destruct (match v_init (var_of d n) with
+                | Some v => (v, t_orc s)
+                | None => let '(x, o) := draw (t_orc s) in (choose (dom_of d n) x 0, o)
+                end) as [v0 o] eqn:E0.
+      specialize (Hv0 v0 o eq_refl).
+      eapply rok2_andthen with (P := tP); [|apply enter_ok].
+      eapply rok2_andthen with (P := tP); [|apply send_value2_ok].
+      apply value_selection2_ok; [exact HR|exact Hv0].
+  Qed.
+
+  Lemma mgm2_recv_ok s src m : tJ s -> Mok2 d src n m -> rok2 tJ O E (mgm2_recv d stop thr favor n s src m).
+  Proof.
+    intros [H0 HR] Hm. unfold mgm2_recv.
+    destruct H0 as [[Hst Hv]|HA].
+    - (* not started: state 0 is no message kind, everything is postponed *)
+      unfold on_msg. cbv zeta. rewrite Hst.
+      assert (Hk : negb (0 =? kind_of m) = true) by (destruct m; reflexivity). rewrite Hk.
+      apply rok2_ret. split.
+      + left. destruct (set_post_value s (kind_of m) (get_post s (kind_of m) ++ [(src, m)])) as [E1 E2].
+        rewrite E1, E2. auto.
+      + apply tR_set_post; [exact HR|]. apply Forall_app. split; [apply tS_get; apply HR|].
+        constructor; [exact Hm|constructor].
+    - apply rok2_weaken with (P := tP); [exact tP_J|].
+      apply on_msg_P; [intros k s'; apply enter_ok|split; assumption|exact Hm].
+  Qed.
+End Mgm2Node.
